@@ -95,7 +95,8 @@ Record state := {
   st_done : list N;                 (* completed request ids, one entry per callback run *)
   st_issued : list (N * N);         (* (client, rid) *)
   st_sent : list (N * sendrec);     (* DMX sends in the order the clients made them *)
-  st_applied : list (N * sendrec) } (* DMX sends in the order the server applied them *).
+  st_applied : list (N * sendrec);  (* DMX sends in the order the server applied them *)
+  st_rejected : list (N * sendrec) } (* DMX sends the server refused: the universe did not exist *).
 
 (* ---------------------------------------------------------------- small map helpers *)
 Definition updf {A} (f : N -> A) (k : N) (v : A) : N -> A := fun x => if x =? k then v else f x.
@@ -196,30 +197,30 @@ Definition client_removed (sv : server) (c : N) : server :=
 Definition set_cl (st : state) (c : N) (k : client) : state :=
   {| st_now := st_now st; st_wake := st_wake st; st_next := st_next st; st_cl := updf (st_cl st) c k; st_sv := st_sv st; st_pend := st_pend st; st_busy := st_busy st;
      st_hz := st_hz st; st_done := st_done st; st_issued := st_issued st; st_sent := st_sent st;
-     st_applied := st_applied st |}.
+     st_applied := st_applied st; st_rejected := st_rejected st |}.
 Definition set_sv (st : state) (sv : server) : state :=
   {| st_now := st_now st; st_wake := st_wake st; st_next := st_next st; st_cl := st_cl st; st_sv := sv; st_pend := st_pend st; st_busy := st_busy st;
      st_hz := st_hz st; st_done := st_done st; st_issued := st_issued st; st_sent := st_sent st;
-     st_applied := st_applied st |}.
+     st_applied := st_applied st; st_rejected := st_rejected st |}.
 Definition set_hz (st : state) : state :=
   {| st_now := st_now st; st_wake := st_wake st; st_next := st_next st; st_cl := st_cl st; st_sv := st_sv st; st_pend := st_pend st; st_busy := st_busy st;
      st_hz := true; st_done := st_done st; st_issued := st_issued st; st_sent := st_sent st;
-     st_applied := st_applied st |}.
+     st_applied := st_applied st; st_rejected := st_rejected st |}.
 
 (* the event loop starts a new iteration: the wake-up time is refreshed from the clock *)
 Definition wake_up (st : state) : state :=
   {| st_now := st_now st; st_wake := st_now st; st_next := st_next st; st_cl := st_cl st; st_sv := st_sv st;
      st_pend := st_pend st; st_busy := st_busy st; st_hz := st_hz st; st_done := st_done st;
-     st_issued := st_issued st; st_sent := st_sent st; st_applied := st_applied st |}.
+     st_issued := st_issued st; st_sent := st_sent st; st_applied := st_applied st; st_rejected := st_rejected st |}.
 
 Definition set_pend (st : state) (l : list N) : state :=
   {| st_now := st_now st; st_wake := st_wake st; st_next := st_next st; st_cl := st_cl st; st_sv := st_sv st; st_pend := l;
      st_busy := st_busy st; st_hz := st_hz st; st_done := st_done st; st_issued := st_issued st;
-     st_sent := st_sent st; st_applied := st_applied st |}.
+     st_sent := st_sent st; st_applied := st_applied st; st_rejected := st_rejected st |}.
 Definition set_busy (st : state) (b : bool) : state :=
   {| st_now := st_now st; st_wake := st_wake st; st_next := st_next st; st_cl := st_cl st; st_sv := st_sv st; st_pend := st_pend st;
      st_busy := b; st_hz := st_hz st; st_done := st_done st; st_issued := st_issued st;
-     st_sent := st_sent st; st_applied := st_applied st |}.
+     st_sent := st_sent st; st_applied := st_applied st; st_rejected := st_rejected st |}.
 
 (* CleanupChannel (run by the SelectServer): OlaServer::ClientRemoved, then the channel and its
    descriptor are deleted.  Running it while a service method is on the stack is the hazard. *)
@@ -276,8 +277,14 @@ Definition apply_dmx (st : state) (c : N) (x : univ) (d : frame) (p : option N) 
   let st2 := set_sv st sv2 in
   let st3 := {| st_now := st_now st2; st_wake := st_wake st2; st_next := st_next st2; st_cl := st_cl st2; st_sv := st_sv st2; st_pend := st_pend st2; st_busy := st_busy st2;
                 st_hz := st_hz st2; st_done := st_done st2; st_issued := st_issued st2;
-                st_sent := st_sent st2; st_applied := st_applied st2 ++ [(c, (u_id x, d, p))] |} in
+                st_sent := st_sent st2; st_applied := st_applied st2 ++ [(c, (u_id x, d, p))]; st_rejected := st_rejected st2 |} in
   if changed then update_dependants st3 x2 else st3.
+
+Definition log_rej (st : state) (c : N) (r : sendrec) : state :=
+  {| st_now := st_now st; st_wake := st_wake st; st_next := st_next st; st_cl := st_cl st; st_sv := st_sv st;
+     st_pend := st_pend st; st_busy := st_busy st; st_hz := st_hz st; st_done := st_done st;
+     st_issued := st_issued st; st_sent := st_sent st; st_applied := st_applied st;
+     st_rejected := st_rejected st ++ [(c, r)] |}.
 
 (* UniverseStore::GetUniverseOrCreate + RestoreUniverseSettings *)
 Definition new_uni (sv : server) (u : N) : univ :=
@@ -294,12 +301,12 @@ Definition handle_req (st : state) (c : N) (r : req) : state * option smsg :=
   match r with
   | RUpdate rid u d p =>
     match find_uni (sv_unis sv) u with
-    | None => (st, Some (SFail rid E_UNIVERSE))
+    | None => (log_rej st c (u, d, p), Some (SFail rid E_UNIVERSE))
     | Some x => (apply_dmx st c x d p, Some (SOk rid))
     end
   | RStream u d p =>
     match find_uni (sv_unis sv) u with
-    | None => (st, None)
+    | None => (log_rej st c (u, d, p), None)
     | Some x => (apply_dmx st c x d p, None)
     end
   | RGet rid u =>
@@ -379,7 +386,7 @@ Fixpoint out_take (rid : N) (l : list (N * kind)) : option (kind * list (N * kin
 Definition add_done (st : state) (rid : N) : state :=
   {| st_now := st_now st; st_wake := st_wake st; st_next := st_next st; st_cl := st_cl st; st_sv := st_sv st; st_pend := st_pend st; st_busy := st_busy st;
      st_hz := st_hz st; st_done := st_done st ++ [rid]; st_issued := st_issued st; st_sent := st_sent st;
-     st_applied := st_applied st |}.
+     st_applied := st_applied st; st_rejected := st_rejected st |}.
 
 (* the Handle* completion for a reply; err = None on RESPONSE, Some on RESPONSE_FAILED *)
 Definition completion (c rid : N) (kd : kind) (m : smsg) : event :=
@@ -445,7 +452,7 @@ Definition issue (st : state) (c : N) (kd : kind) (mk : N -> req) (nc : event) :
   let rid := st_next st in
   let st1 := {| st_now := st_now st; st_wake := st_wake st; st_next := rid + 1; st_cl := st_cl st; st_sv := st_sv st; st_pend := st_pend st; st_busy := st_busy st;
                 st_hz := st_hz st; st_done := st_done st; st_issued := st_issued st ++ [(c, rid)];
-                st_sent := st_sent st; st_applied := st_applied st |} in
+                st_sent := st_sent st; st_applied := st_applied st; st_rejected := st_rejected st |} in
   if k_closed k then (add_done st1 rid, [nc])     (* m_connected == false: completes at once *)
   else (set_cl st1 c {| k_closed := false; k_out := k_out k ++ [(rid, kd)]; k_c2s := k_c2s k ++ [mk rid];
                         k_s2c := k_s2c k |}, []).
@@ -453,7 +460,7 @@ Definition issue (st : state) (c : N) (kd : kind) (mk : N -> req) (nc : event) :
 Definition log_sent (st : state) (c : N) (r : sendrec) : state :=
   {| st_now := st_now st; st_wake := st_wake st; st_next := st_next st; st_cl := st_cl st; st_sv := st_sv st; st_pend := st_pend st; st_busy := st_busy st;
      st_hz := st_hz st; st_done := st_done st; st_issued := st_issued st;
-     st_sent := st_sent st ++ [(c, r)]; st_applied := st_applied st |}.
+     st_sent := st_sent st ++ [(c, r)]; st_applied := st_applied st; st_rejected := st_rejected st |}.
 
 (* ---------------------------------------------------------------- housekeeping *)
 Definition gc_one (sv : server) (u : N) : server :=
@@ -525,7 +532,7 @@ Definition step (st : state) (o : op) : state * N * list event :=
   | OTick dt =>
     ({| st_now := st_now st + dt; st_wake := st_now st + dt; st_next := st_next st; st_cl := st_cl st; st_sv := st_sv st; st_pend := st_pend st; st_busy := st_busy st;
         st_hz := st_hz st; st_done := st_done st; st_issued := st_issued st; st_sent := st_sent st;
-        st_applied := st_applied st |}, 4, [])
+        st_applied := st_applied st; st_rejected := st_rejected st |}, 4, [])
   | OHK => let st0 := wake_up st in (set_sv st0 (housekeeping (st_sv st0)), 4, [])
   | OSrv c => let '(st1, t) := srv_step (wake_up st) c in (st1, t, [])
   | OSrvSame c => let '(st1, t) := srv_step st c in (wake_up st1, t, [])
@@ -533,7 +540,7 @@ Definition step (st : state) (o : op) : state * N * list event :=
     ({| st_now := st_now st + dt; st_wake := st_wake st; st_next := st_next st; st_cl := st_cl st; st_sv := st_sv st;
         st_pend := st_pend st; st_busy := st_busy st;
         st_hz := st_hz st; st_done := st_done st; st_issued := st_issued st; st_sent := st_sent st;
-        st_applied := st_applied st |}, 4, [])
+        st_applied := st_applied st; st_rejected := st_rejected st |}, 4, [])
   | OCli c => cli_step st c
   end.
 
@@ -544,7 +551,7 @@ Definition init_client : client := {| k_closed := false; k_out := []; k_c2s := [
 Definition init_state (ncl : N) : state :=
   {| st_now := START_US; st_wake := START_US; st_next := 0; st_cl := fun _ => init_client;
      st_sv := {| sv_unis := []; sv_gc := []; sv_prefs := []; sv_cdata := []; sv_alive := fun c => c <? ncl |};
-     st_pend := []; st_busy := false; st_hz := false; st_done := []; st_issued := []; st_sent := []; st_applied := [] |}.
+     st_pend := []; st_busy := false; st_hz := false; st_done := []; st_issued := []; st_sent := []; st_applied := []; st_rejected := [] |}.
 
 (* used by the driver's drain loop (mirrors the harness) *)
 Definition srv_can (st : state) (c : N) : bool :=
